@@ -34,7 +34,7 @@ MPk(retry, sgs) == [m |-> PK, retry |-> retry, signers |-> sgs, cred |-> ""]
 \* "o1*": publickey entries with two signers that can fail to negotiate (the repaired defect O1).
 MCConfigs ==
   [n \in {"pw", "kbd", "pw_kbd", "rpw2_kbd", "rkbd0_pw", "pk_ed", "pk_rsa_pw", "pk_alg_edcert", "pk_cert_ed_pw",
-          "kbd_pk3", "rpk2_pw", "pk_pk", "pk_2entries", "pk_certalg_pl", "pk_pref", "o1", "o1cert",
+          "kbd_pk3", "rpk2_pw", "pk_pk", "pk_2entries", "pk_certalg_pl", "pk_pref", "o1", "o1cert", "pk_edcert_pw",
           "long_pw", "long_rpw2_kbd", "f_pk_pw", "f_pk2_pw", "f_pk_pk_pw", "f_rpk2_pw", "f_rpw2_pk", "f_kbd_pk2"} |->
      CASE n = "pw" -> <<M(PW, -1)>>
        [] n = "kbd" -> <<M(KBD, -1)>>
@@ -50,6 +50,7 @@ MCConfigs ==
        [] n = "rpw2_kbd" -> <<M(PW, 2), M(KBD, -1)>>
        [] n = "rkbd0_pw" -> <<M(KBD, 0), M(PW, 3)>>
        [] n = "pk_ed" -> <<MPk(-1, <<SEd1>>)>>
+       [] n = "pk_edcert_pw" -> <<MPk(-1, <<SEdCert1>>), M(PW, -1)>>
        [] n = "pk_rsa_pw" -> <<MPk(-1, <<SRsa1>>), M(PW, -1)>>
        [] n = "pk_alg_edcert" -> <<MPk(-1, <<SRsa1Alg, SEdCert1>>)>>
        [] n = "pk_cert_ed_pw" -> <<MPk(-1, <<SCert1, SEd1>>), M(PW, -1)>>
@@ -129,7 +130,7 @@ SrvScript == {""}
 SrvBoth == DOMAIN GridServers
 SrvGrid == (DOMAIN GridServers) \ {""}
 
-NamesMain  == {"pw", "kbd", "pw_kbd", "pk_ed", "pk_rsa_pw", "pk_alg_edcert", "pk_cert_ed_pw",
+NamesMain  == {"pw", "kbd", "pw_kbd", "pk_ed", "pk_edcert_pw", "pk_rsa_pw", "pk_alg_edcert", "pk_cert_ed_pw",
                "kbd_pk3", "pk_2entries", "pk_certalg_pl", "pk_pref"}
 NamesRetry == {"rpw2_kbd", "rkbd0_pw", "rpk2_pw", "pk_pk"}
 NamesAll   == NamesMain \cup NamesRetry
@@ -137,7 +138,7 @@ NamesSmall == {"pw_kbd", "pk_cert_ed_pw", "kbd_pk3", "pk_pref"}
 NamesO1    == {"o1", "o1cert"}
 NamesLong  == {"long_pw", "long_rpw2_kbd"}
 NamesLong1 == {"long_pw"}
-NamesQuick == {"pw_kbd", "rpw2_kbd", "pk_rsa_pw", "pk_cert_ed_pw", "kbd_pk3", "rpk2_pw", "pk_pref", "pk_certalg_pl", "o1", "o1cert"}
+NamesQuick == {"pw_kbd", "rpw2_kbd", "pk_ed", "pk_edcert_pw", "pk_rsa_pw", "pk_cert_ed_pw", "kbd_pk3", "rpk2_pw", "pk_pref", "pk_certalg_pl", "o1", "o1cert"}
 NamesFocus == {"f_pk_pw", "f_pk2_pw", "f_pk_pk_pw", "f_rpk2_pw", "f_rpw2_pk", "f_kbd_pk2"}
 NamesFocusRetry == {"f_rpk2_pw"}
 NamesRetryPk == {"rpk2_pw", "f_rpk2_pw"}
@@ -174,6 +175,7 @@ PartialLists == {<<PK>>, <<PK, KBD, PW>>, <<PW>>, <<KBD>>}
 FailItems == {It("fail[" \o Join(l) \o "]", <<PFail(l, FALSE)>>) : l \in Lists}
                \cup {It("partial[" \o Join(l) \o "]", <<PFail(l, TRUE)>>) : l \in PartialLists}
 PkokItems == {It("pkok same/same", <<PPkok("@same", "@same")>>), It("pkok same/fmt", <<PPkok("@same", "@fmt")>>),
+              It("pkok same/cross", <<PPkok("@same", "@cross")>>),
               It("pkok same/foreign", <<PPkok("@same", "@foreign")>>), It("pkok other/same", <<PPkok("other", "@same")>>)}
 OtherItems == {It("success", <<PSucc>>), It("inforeq1", <<PInfo(1)>>), It("inforeq0", <<PInfo(0)>>),
                It("disconnect", <<PDisc>>), It("unexpected", <<PUnexp>>), It("silent", <<>>)}
@@ -199,6 +201,7 @@ ItemsAll == FailItems \cup PkokItems \cup OtherItems \cup PrefixItems
 ItemsSmall == {It("fail[" \o Join(l) \o "]", <<PFail(l, FALSE)>>) : l \in {<<PK, KBD, PW>>, <<PK>>, <<PW, KBD>>}}
                 \cup {It("partial[" \o Join(l) \o "]", <<PFail(l, TRUE)>>) : l \in {<<PK, KBD, PW>>}}
                 \cup {It("pkok same/same", <<PPkok("@same", "@same")>>), It("pkok same/fmt", <<PPkok("@same", "@fmt")>>),
+                      It("pkok same/cross", <<PPkok("@same", "@cross")>>),
                       It("pkok other/same", <<PPkok("other", "@same")>>), It("success", <<PSucc>>),
                       It("inforeq1", <<PInfo(1)>>), It("unexpected", <<PUnexp>>),
                       It("ext+fail[all]", <<PExtMid, PFail(<<PK, KBD, PW>>, FALSE)>>)}
